@@ -54,7 +54,7 @@ func runC19Parallel(ctx *core.Ctx) *core.Violation {
 	m := &c19{ctx: ctx}
 	defer m.closeAll()
 	m.le = t.Chance(1, 2)
-	be := t.Pick(beMem, beSeeker, beSeeker, beSeekerAuto, beReaderAt, beFile)
+	be := t.Pick(beMem, beSeeker, beSeeker, beSeekerAuto, beReaderAt, beFile, beMmapPath)
 	n := 1 + t.Draw(40)
 	data := genData(t, n, 2)
 	m.data, m.size = data, int64(n)
@@ -76,6 +76,15 @@ func runC19Parallel(ctx *core.Ctx) *core.Violation {
 		r, err = parse.NewBinaryReaderReader(seeker, sz)
 	case beReaderAt:
 		r, err = parse.NewBinaryReaderReader(&faultio.ReaderAt{Ctx: ctx, Data: data, P: plan, Yield: yield, Quiet: true}, int64(n))
+	case beMmapPath:
+		path, e := c19TempFile(data)
+		if e != nil {
+			panic("harness: temp file: " + e.Error())
+		}
+		r, err = parse.NewBinaryReaderMmapPath(path)
+		if r != nil {
+			m.closers = append(m.closers, r)
+		}
 	case beFile:
 		path, e := c19TempFile(data)
 		if e != nil {
